@@ -257,3 +257,14 @@ pub fn alphabet() -> Vec<Ans> {
     }
     v
 }
+
+/// reduced alphabet for the third and later answers of a script
+pub fn alphabet_small() -> Vec<Ans> {
+    let mut v = vec![];
+    for l in [0usize, 32, 33, 34, 48, 49, 50, 96, 97, 98] {
+        v.push(Ans::Bytes(l));
+        v.push(Ans::Seq(l));
+    }
+    v.extend([Ans::ByteBuf(33), Ans::BorrowedBytes(49), Ans::Str(64), Ans::Str(66), Ans::Str(96), Ans::String(98), Ans::Map(1), Ans::U8(0), Ans::U8(3), Ans::U64(u64::MAX), Ans::Unit, Ans::None, Ans::Some, Ans::Newtype, Ans::Enum(0), Ans::Enum(2)]);
+    v
+}
